@@ -105,3 +105,40 @@ def note_aborted(ctx, cfg, err):
     note = f"{cfg['name']}: {err[:160]}"
     if key == "runs_aborted_by_exception" and note not in ctx.notes and len(ctx.notes) < 12:
         ctx.notes.append("aborted run (not judged by this property): " + note)
+
+
+GEN_STYLE = {"NSGAII": 0, "EpsNSGAII": 0, "SPEA2": 0, "NSGAIII": 0, "IBEA": 0, "GeneticAlgorithm": 1, "EvolutionaryStrategy": 2, "EpsMOEA": 3,
+             "GDE3": 4, "MOEAD": 5, "PESA2": 6, "PAES": 7, "OMOPSO": 8, "SMPSO": 8, "CMAES": 8}
+
+
+def genstep_replay(ctx, ask, alg, segs, inp):
+    """model of one step() on sizes (Model/GenStep.lean, Props/C08Gen.lean): the counter, the number of variator calls and the
+    population / swarm size after every step of the whole history, from the offspring counts the variator returned.  The premise
+    `Progress` of the budget theorems (C08) and the population-size clause (C14) are theorems about this model; this is its tie
+    to the code.  `ask(line, fn)` queues a driver request."""
+    from common import wlist
+    style = GEN_STYLE.get(type(alg).__name__)
+    if style == 5 and getattr(alg, "update_utility", None) is not None:
+        style = None                      # utility-based MOEA/D searches a drawn subset of the subproblems: not this model
+    allsteps = [st for sg in segs for st in sg["steps"]]
+    if style is None or not allsteps or any(sg["nfe_after"] is None for sg in segs):
+        return
+    gsize = alg.swarm_size if style == 8 and hasattr(alg, "swarm_size") else (alg.offspring_size if style == 8 else getattr(alg, "population_size", None))
+    counts = [c for st in allsteps for c in st["evolves"]]
+    if style != 5 and any(len(st["batches"]) != 1 for st in allsteps):
+        ctx.count("genstep_runs_skipped_restart_or_extra_batches")        # eps-NSGA-II restarts evaluate outside iterate()
+        return
+    if any(c is None or c < 1 for c in counts):
+        ctx.count("genstep_runs_skipped_variator_returned_no_offspring")  # outside the theorem's premise
+        return
+    pos, want = 0, []
+    for st in allsteps:
+        pos += len(st["evolves"])
+        want.append(f"{st['nfe']}:{pos}:{st['population_size']}")
+    ginp = dict(inp, style=style, population_size=gsize, offspring_size=getattr(alg, "offspring_size", None),
+                offspring_per_variator_call=counts[:40], observed_nfe_calls_population_per_step=want[:12])
+    ask(f"genrun {style} {gsize} {getattr(alg, 'offspring_size', gsize)} {len(allsteps)} {wlist(counts)}",
+        lambda g, want=want, ginp=ginp: None if g == " ".join(want)
+        else ctx.disagree("step model (genStep: counter, variator calls, population size after every step)", ginp, " ".join(want)[:300], g[:300]))
+    ctx.count("genstep_histories_replayed")
+    ctx.count("genstep_steps_replayed", len(allsteps))
